@@ -25,6 +25,7 @@ materializing the defaulted values can make the configuration archive somewhat
 more hermetic.
 """
 
+import dataclasses
 from typing import Any
 
 from fiddle._src import config
@@ -67,6 +68,14 @@ def materialize_defaults(value: Any) -> None:
           if index not in node.__arguments__ and positional_prefix_set:
             node[index] = arg.default
         elif arg.name not in node.__arguments__:
+          if dataclasses.is_dataclass(
+              node.__fn_or_cls__
+          ) and config._field_uses_default_factory(  # pylint: disable=protected-access
+              node.__fn_or_cls__, arg.name
+          ):
+            # The "default" of such a field is dataclasses' internal factory
+            # marker, not a value.
+            continue
           setattr(node, arg.name, arg.default)
     for _ in state.yield_map_child_values(node, ignore_leaves=True):
       pass  # Run lazy iterator.
